@@ -288,7 +288,11 @@ def _run(case, fs, amb):
             log.append([seq, 'eval_all', len(vals)])
             sig.append('E')
         elif kind == 'plain':
-            model = worlds.build_model({'Sheet1!A1': 1, 'Sheet1!B1': 'two'})
+            if seq % 2:
+                model = worlds.build_model({'Sheet1!A1': 1,
+                                            'Sheet1!B1': 'two'})
+            else:
+                model = Model()         # a model with nothing in it
             compiled, evaluated = True, False
             bump('probe:live_model_replaced_by_plain_workbook')
             log.append([seq, 'plain'])
